@@ -74,18 +74,23 @@ Fixpoint product {X} (ls : list (list X)) : list (list X) :=
 (* var_vote[:pos] + var_part + var_vote[pos+1:] *)
 Definition splice (v : ranked) (pos : nat) (part : list C) : ranked :=
   firstn pos v ++ map IP part ++ skipn (S pos) v.
-(* the splicing loop L586-594 AS WRITTEN: after a part of length k has replaced ONE item the later positions have
-   moved by k - 1, but the code advances its offset by k.  From the second shared rank of a ballot on, the permuted
-   members are therefore inserted one place too far to the right: the shared rank itself stays in the ballot and
-   the item behind it is overwritten. *)
-Fixpoint splice_all (v : ranked) (offset : nat) (idx : list nat) (parts : list (list C)) : ranked :=
+(* the splicing loop L586-594.  AS WRITTEN ([fx] = false): after a part of length k has replaced ONE item the later
+   positions have moved by k - 1, but the code advances its offset by k.  From the second shared rank of a ballot on,
+   the permuted members are therefore inserted one place too far to the right: the shared rank itself stays in the
+   ballot and the item behind it is overwritten.  [fx] = true is the loop with the proposed repair
+   (offset += len(var_part) - 1; fixes/C17-bucklin-splice-offset.diff); the check asks the implementation which of
+   the two it has.  The offset is an integer: it is -1 after an empty shared rank in the repaired loop, but
+   i + offset is never negative there. *)
+Fixpoint splice_all (fx : bool) (v : ranked) (offset : Z) (idx : list nat) (parts : list (list C)) : ranked :=
   match idx, parts with
-  | i :: idx', p :: parts' => splice_all (splice v (i + offset) p) (offset + length p) idx' parts'
+  | i :: idx', p :: parts' =>
+      splice_all fx (splice v (Z.to_nat (Z.of_nat i + offset)) p)
+                 (offset + Z.of_nat (length p) - (if fx then 1 else 0))%Z idx' parts'
   | _, _ => v
   end.
-Definition variants (r : ranked) : list ranked :=
+Definition variants (fx : bool) (r : ranked) : list ranked :=
   let sr := shared_ranks_from 0 r in
-  map (splice_all r 0 (map fst sr)) (product (map (fun il => perms (snd il)) sr)).
+  map (splice_all fx r 0%Z (map fst sr)) (product (map (fun il => perms (snd il)) sr)).
 
 Fixpoint list_eqb {X} (e : X -> X -> bool) (l m : list X) : bool :=
   match l, m with
@@ -104,13 +109,13 @@ Definition ranked_eqb : ranked -> ranked -> bool := list_eqb item_eqb.
 Definition rdel (d : list (ranked * Q)) (k : ranked) : list (ranked * Q) :=
   filter (fun kv => negb (ranked_eqb k (fst kv))) d.
 
-Definition decouple_step (new : list (ranked * Q)) (bw : ranked * Q) : list (ranked * Q) :=
+Definition decouple_step (fx : bool) (new : list (ranked * Q)) (bw : ranked * Q) : list (ranked * Q) :=
   if has_shared (fst bw) then
-    let vs := variants (fst bw) in
+    let vs := variants fx (fst bw) in
     let share := (snd bw / inject_Z (Z.of_nat (length vs)))%Q in
     fold_left (fun acc v => gadd ranked_eqb acc v share) vs (rdel new (fst bw))
   else new.
-Definition decouple (votes : list (ranked * Q)) : list (ranked * Q) := fold_left decouple_step votes votes.
+Definition decouple (fx : bool) (votes : list (ranked * Q)) : list (ranked * Q) := fold_left (decouple_step fx) votes votes.
 
 (* ---- the rounds *)
 Definition wsum (votes : list (ranked * Q)) : Q := fold_right (fun bw acc => (snd bw + acc)%Q) 0%Q votes.
@@ -170,12 +175,13 @@ Definition reconcile (elected : list (res C)) : pa_result :=
 Definition pa_core (coef : nat -> Q) (votes : list (ranked * Q)) (n : nat) : list (res C) :=
   pa_loop coef votes (wsum votes * (1 # 2))%Q n (seq 0 (max_pref_len votes)) [] [].
 
-(* PreferenceAddition(coefficients, split_equal_rankings).evaluate(votes, n) with the coefficients as a function *)
-Definition pa_eval (coef : nat -> Q) (split : bool) (votes : list (ranked * Q)) (n : nat) : pa_result :=
+(* PreferenceAddition(coefficients, split_equal_rankings).evaluate(votes, n) with the coefficients as a function;
+   fx: which splicing loop (false = the code as written) *)
+Definition pa_eval (fx : bool) (coef : nat -> Q) (split : bool) (votes : list (ranked * Q)) (n : nat) : pa_result :=
   match n with
   | O => PA_unmodelled
   | _ =>
-      let votes1 := if split then decouple votes else votes in
+      let votes1 := if split then decouple fx votes else votes in
       match votes1 with
       | [] => PA_value_error
       | _ => reconcile (pa_core coef votes1 n)
@@ -183,20 +189,20 @@ Definition pa_eval (coef : nat -> Q) (split : bool) (votes : list (ranked * Q)) 
   end.
 
 (* ... and with the constructor argument as given *)
-Definition pa_evaluate (cs : coefspec) (split : bool) (votes : list (ranked * Q)) (n : nat) : pa_result :=
+Definition pa_evaluate (fx : bool) (cs : coefspec) (split : bool) (votes : list (ranked * Q)) (n : nat) : pa_result :=
   match n with
   | O => PA_unmodelled
   | _ =>
-      let votes1 := if split then decouple votes else votes in
+      let votes1 := if split then decouple fx votes else votes in
       match votes1 with
       | [] => PA_value_error
-      | _ => if coef_ok cs || Nat.eqb (max_pref_len votes1) 0 then pa_eval (coef_fun cs) split votes n
+      | _ => if coef_ok cs || Nat.eqb (max_pref_len votes1) 0 then pa_eval fx (coef_fun cs) split votes n
              else PA_index_error
       end
   end.
 
-(* the presets *)
+(* the presets (fx = false: the code as written) *)
 Definition bucklin_coef : nat -> Q := fun _ => 1%Q.
 Definition oklahoma_coef : nat -> Q := fun i => 1 # Pos.of_nat (S i).
-Definition bucklin (votes : list (ranked * Q)) (n : nat) : pa_result := pa_eval bucklin_coef true votes n.
-Definition oklahoma (votes : list (ranked * Q)) (n : nat) : pa_result := pa_eval oklahoma_coef true votes n.
+Definition bucklin (fx : bool) (votes : list (ranked * Q)) (n : nat) : pa_result := pa_eval fx bucklin_coef true votes n.
+Definition oklahoma (fx : bool) (votes : list (ranked * Q)) (n : nat) : pa_result := pa_eval fx oklahoma_coef true votes n.
